@@ -101,11 +101,21 @@ def exit_code_tables(ctx, rid):
             continue
         dom = f.dominators()
         starts = [c for c in cs if all(c.bb in dom.get(o.bb, ()) for o in cs)]
-        if not starts:
-            r.undecidable(rid, "%s: no single entry of the exit-code decision region" % fid)
-            continue
+        if starts:
+            start_bb = starts[0].bb
+        else:
+            # no getter comes first on every path (`check && (diff || ..)` tests an option first): start at the deepest
+            # block that dominates all of them
+            common = None
+            for c in cs:
+                common = set(dom.get(c.bb, ())) if common is None else (common & set(dom.get(c.bb, ())))
+            common = [b for b in (common or ()) if f.blocks[b]["t"][0] != "unreachable"]
+            if not common:
+                r.undecidable(rid, "%s: no single entry of the exit-code decision region" % fid)
+                continue
+            start_bb = max(common, key=lambda b: len(dom.get(b, ())))
         try:
-            paths = explore(f, start=starts[0].bb,
+            paths = explore(f, start=start_bb,
                             pure=lambda c: any(c.name.endswith("::" + g) for g in GETTERS))
         except TooManyPaths as e:
             r.undecidable(rid, str(e))
@@ -125,6 +135,13 @@ def exit_code_tables(ctx, rid):
                 return v[1]     # a helper returning the code itself
             if v[0] == "atom" and v[1].startswith("residual("):
                 return None
+            # `Ok(i32::from(flag))` where flag is one of the table's atoms left undecided (the last operand of `a || b`)
+            inner = v[3][0] if (v[0] == "agg" and v[2] == "Ok" and v[3]) else v
+            if inner[0] == "atom" and inner[1].startswith("frombool(") and inner[1].endswith(")"):
+                m = atom(inner[1][len("frombool("):-1].lstrip("!"), True)
+                negd = inner[1][len("frombool("):].startswith("!")
+                if m is not None and m[1] is True:
+                    return (lambda assign, _a=m[0], _n=negd: int((not assign[_a]) if _n else assign[_a]))
             return "dyn:" + vkey(v)
 
         def atom(key, val, _pm=param_map):
@@ -154,7 +171,7 @@ def exit_code_tables(ctx, rid):
             r.violation(rid, "%s: exit code for %s" % (fid, ",".join("%s=%d" % (a, int(v)) for a, v in sorted(assign.items()))),
                         "exit code is %s where the specification gives %s for %s%s" % (
                             got, exp, assign, (" under extra conditions %s" % unknown) if unknown else ""),
-                        ["%s:%d" % (f.file, starts[0].line)])
+                        ["%s:%d" % (f.file, f.line)])
         if soft:
             r.undecidable(rid, "%s: exit code 1 under conditions outside the table: %s" % (fid, soft[:3]))
 
